@@ -92,17 +92,24 @@ func fkey(p eval.Pawns) (int, int) {
 	return proj.PawnsKey(p), 1
 }
 
-func engineFacts(ctx context.Context, b *board.Board) out.M {
-	if os.Getenv("VERIF_DEBUG") != "" {
-		defer func() {
-			if r := recover(); r != nil {
-				fmt.Fprintln(os.Stderr, "PANIC in engineFacts on", b, r)
-				panic(r)
+// engineFacts evaluates and filters one position with every historical engine.  A panic in any
+// of them is recorded (the evaluations and filters are to be total): the facts then carry the
+// name of the call that panicked and nothing else but the position.
+func engineFacts(ctx context.Context, b *board.Board) (ret out.M) {
+	stage := "setup"
+	b = b.Fork() // a panicking filter may leave a move pushed
+	pos0 := proj.Position(b.Position(), b.Turn())
+	defer func() {
+		if r := recover(); r != nil {
+			if os.Getenv("VERIF_DEBUG") != "" {
+				fmt.Fprintln(os.Stderr, "PANIC in engineFacts on", b, stage, r)
 			}
-		}()
-	}
+			ret = out.M{"pos": pos0, "panic": stage, "what": fmt.Sprint(r)}
+		}
+	}()
 	ev := out.M{}
 	put := func(name string, e eval.Evaluator) {
+		stage = "eval:" + name
 		k, fin := fkey(e.Evaluate(ctx, b))
 		ev[name] = []int{k, fin}
 	}
@@ -113,29 +120,37 @@ func engineFacts(ctx context.Context, b *board.Board) out.M {
 	put("bernstein8", bernstein.Eval{Factor: 8})
 	put("bernstein100", bernstein.Eval{Factor: 100})
 	pts := &sargon.Points{}
+	stage = "eval:sargon"
 	pts.Reset(ctx, b)
 	put("sargon", pts)
 
 	legal, _ := gen.LegalOf(b)
 	plaus := [][]int{}
+	stage = "filter:plausible"
 	for _, m := range bernstein.FindPlausibleMoves(b) {
 		plaus = append(plaus, proj.Move(m))
 	}
 	sel := map[string][][]int{}
 	for _, lim := range []int{0, 1, 7} {
+		stage = "filter:plausible"
 		_, pred := bernstein.PlausibleMoveTable{Limit: lim}.Explore(ctx, b)
+		stage = "filter:skipunder"
 		_, skip := sargon.SkipUnderPromotions(ctx, b)
+		stage = "filter:considerable"
 		_, cons := turochamp.ConsiderableMovesOnly(ctx, b)
 		var a, s, c [][]int
 		for _, m := range legal {
 			b.PushMove(m) // predicates are evaluated after the move, as the searches do
+			stage = "filter:plausible"
 			if pred(m) {
 				a = append(a, proj.Move(m))
 			}
 			if lim == 0 {
+				stage = "filter:skipunder"
 				if skip(m) {
 					s = append(s, proj.Move(m))
 				}
+				stage = "filter:considerable"
 				if cons(m) {
 					c = append(c, proj.Move(m))
 				}
@@ -149,7 +164,7 @@ func engineFacts(ctx context.Context, b *board.Board) out.M {
 			sel["considerable"] = nz(c)
 		}
 	}
-	return out.M{"pos": proj.Position(b.Position(), b.Turn()), "eval": ev, "plausible": plaus, "sel": sel, "nlegal": len(legal)}
+	return out.M{"pos": proj.Position(b.Position(), b.Turn()), "panic": "", "eval": ev, "plausible": plaus, "sel": sel, "nlegal": len(legal)}
 }
 
 func nz(a [][]int) [][]int {
